@@ -105,6 +105,11 @@ def h_request(s0: int, s1: int, s2: int, ra0: int, ra1: int, b0: int, b1: int, e
     vkopf.begin_path()
     c = vkopf.cell()
     shape = c.get('shape', 'list2')
+    lo, hi = c.get('s0_range', [0, 599])
+    if not (lo <= s0 <= hi):
+        return True
+    if c.get('two_faults'):
+        s2 = 200                    # at most two faults, then the request succeeds
     script = [(s0, ra0), (s1, ra1), (s2, None)]
     (res, status), log = run_request(script, shape, b0, b1, enforce, 1 if ra_style else 0)
     backoffs = {'empty': [], 'scalar': [b0], 'list2': [b0, b1], 'reiter': [b0, b1]}[shape]
@@ -183,6 +188,8 @@ def run_auth(k, bad_from, durs, ties=()):
     vault = credentials.Vault()
 
     async def main():
+        # `random.choice` among equally prioritised credentials: there is a single credential here
+        credentials.random = type('R', (), {'choice': staticmethod(lambda seq: seq[0])})
         auth.vault_var.set(vault)
         authn = asyncio.create_task(activities.authenticator(registry=registry, settings=settings, indices={},
                                                              vault=vault, memo=ephemera.Memo()))
@@ -198,8 +205,13 @@ def run_auth(k, bad_from, durs, ties=()):
             authn.cancel()
             await asyncio.gather(authn, return_exceptions=True)
             await cancel_all_others()
+            import random as _random
+            credentials.random = _random
         return results
-    results = loop.run(main(), ties=ties)
+    from vkopf import shimdt
+    from kopf._core.actions import progression
+    with shimdt.installed(progression):        # the login activity keeps its state in memory: timestamps stay symbolic
+        results = loop.run(main(), ties=ties)
     return results, log, logins, sessions
 
 
@@ -246,7 +258,7 @@ def run_throttle(fails, d0, d1, gaps, ties=()):
     import functools
     from kopf._cogs.structs import ephemera
     from kopf._core.reactor import queueing
-    wa = World(base_body(name='a', uid='ua'))
+    wa = World(base_body(name='a', uid='ua'), tmode='symbolic')
     loop = wa.loop
     wa.settings.queueing.error_delays = [d0, d1]
     wa.settings.queueing.idle_timeout = 1
@@ -296,7 +308,10 @@ def run_throttle(fails, d0, d1, gaps, ties=()):
         finally:
             api_.patch, queueing.watching.infinite_watch = orig
             await cancel_all_others()
-    died = wa.run(main(), ties=ties, max_steps=20000)
+    from vkopf import shimdt
+    from kopf._core.actions import progression
+    with shimdt.installed(progression):
+        died = wa.run(main(), ties=ties, max_steps=20000)
     return calls, died
 
 
@@ -346,12 +361,18 @@ def h_throttle(f0: bool, f1: bool, f2: bool, d0: int, d1: int, g1: int, g2: int,
 
 def obligations():
     obs = []
+    ranges = [[0, 1], [2, 399], [400, 402], [403, 403], [404, 428], [429, 429], [430, 499], [500, 599]]
+    for r in ([429, 429], [500, 599], [0, 1], [400, 402]):
+        obs.append(Ob('h_request', {'shape': 'list2', 's0_range': r, 'two_faults': True}, tiers=('quick',), timeout=900))
+    obs.append(Ob('h_request', {'shape': 'empty', 'two_faults': True}, tiers=('quick',), timeout=900))
+    obs.append(Ob('h_request', {'shape': 'list2', 'two_faults': True}, tiers=('quick', 'thorough'), timeout=300,
+                  twins=['escalated', 'retried', 'retry_after'], main=False))
     for shape in ('list2', 'empty', 'scalar', 'reiter'):
-        obs.append(Ob('h_request', {'shape': shape}, timeout=2400, tiers=('quick', 'thorough') if shape in ('list2', 'empty') else ('thorough',),
-                      twins=['escalated', 'retried', 'retry_after'] if shape == 'list2' else []))
-    obs.append(Ob('h_auth', {'k': 1}, timeout=1500, twins=['reauthenticated']))
-    obs.append(Ob('h_auth', {'k': 2}, timeout=3000))
+        for r in ranges:
+            obs.append(Ob('h_request', {'shape': shape, 's0_range': r}, tiers=('thorough',), timeout=2400))
+    obs.append(Ob('h_auth', {'k': 1}, timeout=900, twins=['reauthenticated']))
+    obs.append(Ob('h_auth', {'k': 2}, timeout=900))
     obs.append(Ob('h_auth', {'k': 3}, timeout=3400, tiers=('thorough',)))
-    obs.append(Ob('h_throttle', {'events': 3}, timeout=2400, path_timeout=300, twins=['throttled', 'grown']))
+    obs.append(Ob('h_throttle', {'events': 3}, timeout=1500, path_timeout=300, twins=['throttled', 'grown']))
     obs.append(Ob('h_throttle', {'events': 4}, timeout=3400, path_timeout=300, tiers=('thorough',)))
     return obs
